@@ -29,3 +29,7 @@ BOUNDED = BOUNDED + [_bt_attr_ops, _bt_laws]
 FUNCTIONS = FUNCTIONS + [M + 'match_nth', M + 'match_nth_tag_type']
 
 FUNCTIONS = FUNCTIONS + [q for q in ATTRS if q not in FUNCTIONS]
+
+FUNCTIONS = FUNCTIONS + [q for q in STRUCT if q not in FUNCTIONS]
+
+FUNCTIONS = FUNCTIONS + [M + 'match_contains']
